@@ -122,6 +122,10 @@ class Ref:
                 return f
         return None
 
+    def limbo_holds(self, r: int, l: int, f: int) -> bool:
+        """A limbo object other than f was last announced under (r, l): it still owns that local ID."""
+        return any(ff != f and o["r"] == r and o["l"] == l for ff, o in self.limbo.items())
+
     def children(self, r: int, l: int) -> List[int]:
         return sorted(o["l"] for o in self.objs.values() if o["r"] == r and o["p"] == l)
 
@@ -268,7 +272,7 @@ class Harness:
             if m.tracked[r]:
                 for f in range(NF):
                     for l in range(1, top + 1):
-                        if m.at(r, l) not in (None, f):
+                        if m.at(r, l) not in (None, f) or m.limbo_holds(r, l, f):
                             continue                      # a live local ID is never given to a second full ID
                         ptop = min(self.nl, max(m.hi[r], l) + 1)
                         for p in range(0, ptop + 1):
@@ -329,7 +333,7 @@ class Harness:
         if crc == 1:
             return "miss" if holder is None else "miss-stale"
         # crc 2: the viewer cache says local l is F1
-        if holder not in (None, 1):
+        if holder not in (None, 1) or m.limbo_holds(r, l, 1):
             return None         # would hand a live local ID to a second full ID
         if holder == 1:
             return "vohit-clobber"
@@ -346,6 +350,7 @@ class Harness:
         exp: Dict[str, Any] = {"must_done": []}
         hkey = kind
         prior_futs = list(w.futs)
+        self._prebuild(ev)       # serializer trouble is a harness error, not a finding
         try:
             if kind == "A":
                 _, r, f, l, p, _ = ev
@@ -422,6 +427,25 @@ class Harness:
             return
         self.oracle(w, ev, exp, site, prior_futs)
         w.futs = [x for x in w.futs if not x["fut"].done()]
+
+    @staticmethod
+    def _prebuild(ev):
+        kind = ev[0]
+        if kind == "A":
+            _, r, f, l, p, _ = ev
+            wh.wire(MSG_KIND[f], wh.HANDLES[r], wh.FULLS[f], l, p, PCode.AVATAR if f == AV else PCode.PRIMITIVE, 1)
+        elif kind == "T":
+            wh.wire("ImprovedTerseObjectUpdate", wh.HANDLES[ev[1]], ev[2])
+        elif kind == "C":
+            wh.wire("ObjectUpdateCached", wh.HANDLES[ev[1]], ev[2], ev[3])
+        elif kind == "P":
+            wh.wire("ObjectProperties", wh.FULLS[ev[1]])
+        elif kind == "PF":
+            wh.wire("ObjectPropertiesFamily", wh.FULLS[ev[1]])
+        elif kind == "K":
+            wh.wire("KillObject", ev[2])
+        elif kind == "KM":
+            wh.wire("KillObject", ev[2], ev[3])
 
     # ---- oracle -------------------------------------------------------------------------------------------------
     def oracle(self, w: World, ev, exp, site: str, prior_futs):
@@ -728,8 +752,9 @@ def _minimise(h: Harness, history, clause: str, site: str):
 
 BOUNDS = {
     # tier: [(profile, regions, locals per region, depth, deviation bound)]
-    "quick": [("graph", 1, 3, 4, 2), ("graph", 2, 2, 4, 2), ("full", 1, 3, 4, 2), ("full", 2, 2, 3, 2)],
-    "thorough": [("graph", 1, 3, 6, 3), ("graph", 2, 2, 6, 3), ("full", 1, 3, 5, 3), ("full", 2, 2, 4, 3)],
+    "quick": [("graph", 1, 3, 5, 2), ("graph", 2, 2, 4, 2), ("full", 1, 3, 3, 2), ("full", 2, 2, 3, 2)],
+    "thorough": [("graph", 1, 3, 10, 3), ("graph", 2, 2, 6, 3), ("full", 1, 3, 4, 3), ("full", 1, 2, 5, 2),
+                 ("full", 2, 2, 4, 2)],
 }
 
 
